@@ -115,6 +115,8 @@ func evalFrame(c CaseFrame) Result {
 	case c.CL > 1<<24:
 		if e == 0 || e == sipsp.ErrHdrMoreBytes || e == sipsp.ErrHdrNoCLen {
 			m = fmt.Sprintf("Content-Length above 2^24 not rejected: (%d, %v)", o, e)
+		} else if !msg.Err() || msg.Parsed() {
+			m = fmt.Sprintf("rejected with %v but Err()=%v Parsed()=%v", e, msg.Err(), msg.Parsed())
 		}
 	case skip && req && c.CL < 0:
 		if e != sipsp.ErrHdrNoCLen || o != hdrEnd {
